@@ -6,6 +6,17 @@ sys.path.insert(0, os.path.join(os.path.dirname(os.path.dirname(os.path.abspath(
 import common
 PROPS = {'C01': ['BctVerif.Props.C01', 'BctVerif.Props.C01Kernel', 'BctVerif.Props.C01RandBin']}
 ids = sys.argv[1:]
+if 'gen' in ids or ids == ['all']:
+    import glob
+    gp = {}
+    for f in sorted(glob.glob(os.path.join(common.LEAN, 'BctVerif', 'Gen', '*.lean'))):
+        m = 'BctVerif.Gen.' + os.path.basename(f)[:-5]
+        gp[m] = common.closure_hashes([m], common.theorems_in(m), 'pin_' + os.path.basename(f)[:-5])
+        assert gp[m], ('no closure for', m)
+    os.makedirs(os.path.join(common.LEAN, 'pins'), exist_ok=True)
+    json.dump(gp, open(common.gen_pins_file(), 'w'), indent=1, sort_keys=True)
+    print('GEN', len(gp), 'modules,', sum(len(v) for v in gp.values()), 'definitions')
+    ids = [i for i in ids if i != 'gen']
 if ids == ['all']:
     ids = ['C%02d' % i for i in range(1, 21)]
 os.makedirs(os.path.join(common.LEAN, 'pins'), exist_ok=True)
@@ -21,5 +32,6 @@ for pid in ids:
     d = {t: hashlib.sha1(st[t].encode()).hexdigest() for t in thms}
     assert common.axioms_audit.defhashes, 'no definition hashes printed'
     d['__defs__'] = dict(common.axioms_audit.defhashes)
+    d['__types__'] = {t: common.axioms_audit.thmhashes[t] for t in thms}
     json.dump(d, open(common.pins_file(pid), 'w'), indent=1, sort_keys=True)
     print(pid, len(thms), 'statements pinned,', len(d['__defs__']), 'definitions')
